@@ -150,8 +150,9 @@ def equiv_check(kinds, what):
     return chk
 
 
-def iter_cfg(a, b):
-    return f"INIT IInit\nNEXT INext\nINVARIANT IInv\nCONSTANTS\n  FixLastChar = {a}\n  FixExhaust = {b}\nCHECK_DEADLOCK FALSE\n"
+def iter_cfg(a, b, adv="TRUE", with_adv="FALSE"):
+    return (f"INIT IInit\nNEXT INext\nINVARIANT IInv\nCONSTANTS\n  FixLastChar = {a}\n  FixExhaust = {b}\n  FixAdvance = {adv}\n"
+            f"  WithAdvance = {with_adv}\nCHECK_DEADLOCK FALSE\n")
 
 
 def ff_cfg(a):
@@ -183,6 +184,10 @@ MODEL_LEGS = {
     "C17": lambda q: [
         ("M-Minimize-keywords-unbounded-ids", "Pipeline", pipe_cfg("FALSE", "FALSE", 0), dict(CFGS="U_PipeW", MAXLEN=4), False),
         ("M-Minimize-keywords-2-bit-group-ids", "Pipeline", pipe_cfg("FALSE", "FALSE", 2), dict(CFGS="U_PipeW", MAXLEN=4), True),
+    ],
+    "C10": lambda q: [
+        ("M-IterImpl-advance", "IterImpl", iter_cfg("TRUE", "TRUE", "TRUE", "TRUE"), dict(CFGS="U_C10", SYMS="Syms_C06", MAXLEN=3 if q else 4, HI=6), False),
+        ("M-IterImpl-advance-relative", "IterImpl", iter_cfg("TRUE", "TRUE", "FALSE", "TRUE"), dict(CFGS="U_C10", SYMS="Syms_C06", MAXLEN=3, HI=6), True),
     ],
     "C05": lambda q: [
         ("M-FindFrom", "FindFrom", ff_cfg("TRUE"), dict(CFGS="U_C05", SYMS="Syms_C04", MAXLEN=4, HI=2500 if q else "Len(Cfgs)"), False),
